@@ -328,7 +328,7 @@ func (g *Gen) Parents() string {
 	defer func() { w.ExpectTSetOK = false }()
 	cs := w.Node.CM.TipState()
 	e1, e2 := w.EphCoins(true, false), w.EphCoins(false, true)
-	switch rng.Intn(7) {
+	switch rng.Intn(9) {
 	case 0: // v1 API, child of pooled v1 outputs (or of nothing)
 		if len(e1) == 0 {
 			if len(w.LastV1) == 0 {
@@ -373,6 +373,35 @@ func (g *Gen) Parents() string {
 		w.TSet(w.TipID(), w.SpendV2(cs, []Coin{CoinV2(a, 1), CoinV2(b, 0)}, 1, g.Fee(), 0), "grandparent-first")
 		w.TSet(w.TipID(), w.SpendV2(cs, []Coin{CoinV2(b, 0), CoinV2(a, 1)}, 1, g.Fee(), 0), "parent-first")
 		return "tset-diamond"
+	case 6, 7: // v2 API, a chain of 3-5 pooled generations above the transaction (also with a stale basis)
+		if !w.V2Allowed() {
+			return "skip"
+		}
+		free := w.FreeCoins()
+		if len(free) == 0 {
+			return "skip"
+		}
+		depth := 3 + rng.Intn(3)
+		chain := g.FreshV2(depth, true, free[:1])
+		if len(chain) != depth || g.AddV2(w.TipID(), chain, nil, "fresh", -1, false) != "ok" {
+			return "skip"
+		}
+		last := chain[len(chain)-1]
+		w.TSet(w.TipID(), w.SpendV2(cs, []Coin{CoinV2(last, 0)}, 1, g.Fee(), 0), "deep-chain")
+		// the same for the v1 API
+		if w.V1Allowed() && rng.Bool() {
+			free = w.FreeCoins()
+			if len(free) > 0 {
+				c1 := g.FreshV1(depth, true)
+				if len(c1) == depth && g.AddV1(c1, nil, "fresh", -1, true) == "ok" {
+					out := w.Parents1(w.SpendV1(cs, []Coin{CoinV1(c1[depth-1], 0)}, 1, g.Fee(), 0), "deep-chain")
+					if len(out) != depth {
+						w.C.Oracle("unconfirmedparents-deep-chain-ancestor-missing", "UnconfirmedParents of a transaction with %d pooled generations above it returned %d transactions", depth, len(out))
+					}
+				}
+			}
+		}
+		return "tset-deep-chain"
 	case 5: // v2 API, stale basis, with and without pooled parents
 		if !w.V2Allowed() || len(e2) == 0 {
 			return "skip"
